@@ -19,6 +19,7 @@ From Coq.Strings Require Import Byte.
 From SP Require Import Bytes Consts Params Msgpack Errors BaseX Encodings Packets Armor ArmorProofs ClassifyProofs.
 From SP Require Import GoLang GoAst GoAstProofs.
 From Coq Require String.
+Import String.StringSyntax.
 Import ListNotations.
 
 Theorem C16_binary_prefix_stable (maj mi typ : Z) (fields : list mval) (rest : bytes) (k : nat) :
